@@ -12,6 +12,7 @@ import (
 	_ "time/tzdata"
 
 	_ "verif/internal/cronmc"
+	_ "verif/internal/e2emc"
 	_ "verif/internal/puremc"
 )
 
